@@ -47,7 +47,9 @@ WHAT TO PRODUCE
 3. {wt}/demo_seeded.py - a self-contained program (stdlib + the package only, finishing in well under 60 s, exit code 0 = property
    held, 1 = property violated, 2 = set-up trouble) that FAILS (exit 1) with your change and PASSES (exit 0) on the unchanged
    code. It must demonstrate a violation of the property AS STATED above (not of some neighbouring expectation). Verify both:
-   run it with the change, then `git stash`, run it again, `git stash pop`.
+   run it with the change; write change.diff (`git diff -- src > change.diff`); undo the change with
+   `git apply -R change.diff`, run the demo again, restore with `git apply change.diff`. Do NOT use `git stash` (the stash
+   is shared between all worktrees of the repository and other people are working in theirs).
 4. {wt}/change.diff - the output of `git diff` (source change only, not the demo).
 5. In your final answer: 5-10 lines - which clause of the property breaks, what exactly is needed to make it show, why the
    existing tests and ordinary use do not see it.
